@@ -211,15 +211,22 @@ theorem shape_save :
   simp [LarkCache.sourceReaders, Str.startsWith]
 
 open Tranp.Generated in
-/-- The tree cache's identity is made of the grammar's full `str(mtime)`, the parser setting (grammar path, start rule,
+/-- The tree cache's identity begins with the grammar's full `str(mtime)`, the parser setting (grammar path, start rule,
     algorithm) and the source file's full `str(mtime)`, in this order (the expressions are pinned verbatim: truncating,
-    dropping or reordering one changes the table) … -/
+    dropping or reordering one changes the table); behind them stands nothing, or only the source's content hash
+    (`'hash': self.__sources.hash(source_path)` — a further component can only make the identity finer) … -/
 theorem shape_identity :
-    LarkCache.treeIdentity.map (·.1) = ["grammar_mtime".toList, "grammar".toList, "start".toList, "algorithem".toList, "mtime".toList]
-    ∧ LarkCache.treeIdentity.map (·.2) = ["str(self.__datums.mtime(self.__setting.grammar))".toList, "self.__setting.grammar".toList,
+    (LarkCache.treeIdentity.take 5).map (·.1) = ["grammar_mtime".toList, "grammar".toList, "start".toList, "algorithem".toList, "mtime".toList]
+    ∧ (LarkCache.treeIdentity.take 5).map (·.2) = ["str(self.__datums.mtime(self.__setting.grammar))".toList, "self.__setting.grammar".toList,
         "self.__setting.start".toList, "self.__setting.algorithem".toList, "str(self.__sources.mtime(source_path))".toList]
+    ∧ (LarkCache.treeIdentity.drop 5 = [] ∨ LarkCache.treeIdentity.drop 5 = [("hash".toList, "self.__sources.hash(source_path)".toList)])
     ∧ LarkCache.parserIdentity.map (·.1) = [['m', 't', 'i', 'm', 'e'], ['g', 'r', 'a', 'm', 'm', 'a', 'r'], ['s', 't', 'a', 'r', 't'], ['a', 'l', 'g', 'o', 'r', 'i', 't', 'h', 'e', 'm']] := by
-  refine ⟨?_, ?_, by decide⟩ <;> simp [LarkCache.treeIdentity]
+  refine ⟨?_, ?_, ?_, by decide⟩
+  · simp [LarkCache.treeIdentity]
+  · simp [LarkCache.treeIdentity]
+  · first
+      | (left; simp [LarkCache.treeIdentity]; done)
+      | (right; simp [LarkCache.treeIdentity]; done)
 
 /-- … and the text `Cached.identifier` hashes (`str(identity)`) determines every component: two runs share a tree-cache file
     name only if the grammar's mtime string, the grammar path, the start rule, the algorithm and the source's mtime string all
@@ -230,10 +237,10 @@ theorem identity_injective (vs ws : List Str) (hl : vs.length = Generated.LarkCa
     (h : Shape.pyStrDict (Shape.treeIdentityOf vs) = Shape.pyStrDict (Shape.treeIdentityOf ws)) : vs = ws :=
   Shape.pyStrDict_injective _ vs ws (by simpa using hl) (by simpa using hl') hv hw h
 
-example : Shape.Plain "data/grammar.lark".toList ∧ Shape.Plain ['1', '7', '.', '2', '5'] ∧ Generated.LarkCache.treeIdentity.length = 5 := by
+example : Shape.Plain "data/grammar.lark".toList ∧ Shape.Plain ['1', '7', '.', '2', '5'] ∧ 5 ≤ Generated.LarkCache.treeIdentity.length := by
   refine ⟨?_, ?_, by decide⟩ <;> simp [Shape.Plain]
 
-/-- The cache file of a module (`<module path>-<md5 of str(identity)>.json`) is shared by two runs only if all five identity
+/-- The cache file of a module (`<module path>-<md5 of str(identity)>.json`) is shared by two runs only if all identity
     components agree — under exactly one hypothesis about md5: it has no collision among tree-cache identity texts
     (`Md5CollisionFreeOnIdentities`); nothing else about md5 is used. -/
 theorem cache_file_injective (md5 : Str → Str) (hmd5 : Shape.Md5CollisionFreeOnIdentities md5) (key ext : Str)
